@@ -25,6 +25,7 @@ def _cfgs():
 UNITS = [(lambda c: (lambda: S.u_fit(c)))(c) for c in _cfgs()]
 UNITS += [(lambda c: (lambda: S.u_views(c)))(c) for c in (C('FPS', 'feature'), C('FPS', 'sample'), C('CUR', 'feature'), C('PCovCUR', 'sample'), C('VoronoiFPS', 'sample'), C('PCovFPS', 'feature'))]
 UNITS += [lambda: S.u_voronoi_update()]
+UNITS += [(lambda t, f: (lambda: S.u_pick_threshold(t, f)))(t, f) for t in ('absolute', 'relative') for f in (False, True)]
 RT = True
 TRUSTED = ["vector layer: rows/columns as terms of an uninterpreted sort with symmetric inner product, ||u-v||^2 >= 0, zero vector (no extensionality assumed)",
            "modular contracts: X_orthogonalizer zeroes the selected slice in its normalising branch and keeps zero slices zero, _compute_pi returns one non-negative score per candidate (both proved for the real functions under C07); a candidate with a zero residual slice has score 0 while the residual rank is >= k (property of the external singular-vector routine, assumed)",
